@@ -489,6 +489,29 @@ func (e *Env) evalCall(x *Expr) (SV, error) {
 			return SV{}, serr("final(%s): no such variable", x.Args[0].Name)
 		}
 		return sv, nil
+	case "typeis", "unbox":
+		// typeis(x, "T"): the interface value x is non-nil and has dynamic type T; unbox(x, "T"): its value as a T
+		// (the terms the executor produces for the type assertion x.(T)); T is a type name as in `alias`/`uf` declarations
+		if len(x.Args) != 2 || x.Args[1].Kind != "str" {
+			return SV{}, serr("%s(x, \"TypeName\")", x.Name)
+		}
+		a, err := e.Eval(x.Args[0])
+		if err != nil {
+			return SV{}, err
+		}
+		so, gt, err := v.resolveType(x.Args[1].Name)
+		if err != nil || gt == nil {
+			return SV{}, serr("%s: cannot resolve Go type %q", x.Name, x.Args[1].Name)
+		}
+		if a.T.Sort != SInt {
+			return SV{}, serr("%s: first argument is not an interface value", x.Name)
+		}
+		if x.Name == "typeis" {
+			return SV{T: c.And(c.Not(c.Eq(a.T, c.Int(0))), c.Eq(c.UF("typeof", SInt, a.T), v.typeTag(gt)))}, nil
+		}
+		name := "unbox_" + sanitize(shortTypeName(gt))
+		c.DeclareFun(name, []*Sort{SInt}, so)
+		return SV{T: c.App(name, so, a.T), GoT: gt}, nil
 	case "ite":
 		if len(x.Args) != 3 {
 			return SV{}, serr("ite takes 3 arguments")
